@@ -116,6 +116,9 @@ func (e *c20Engine) Prepare() error {
 		return nil
 	}
 	e.prepared = true
+	// Always one P for the goroutine scheduler: with two, the waiters spin in
+	// parallel with the current task and the rotation-counting argument behind
+	// the runtime-blocked detection no longer holds (tried: false deadlocks).
 	runtime.GOMAXPROCS(1)
 	if err := sched.SelfTestMutexLayout(); err != nil {
 		return err
@@ -502,7 +505,11 @@ func (e *c20Engine) genGCS(t *kit.Trace, cr, wr *kit.Rng, nt, maxOps int) {
 	nq := cr.Range(1, 4)
 	for q := 0; q < nq; q++ {
 		var parts []string
-		for i, m := 0, cr.Range(0, 6); i < m; i++ {
+		qn := cr.Range(0, 6)
+		if cr.Chance(1, 12) {
+			qn = cr.Range(60, 140) // beyond any small fixed-size scratch area
+		}
+		for i, m := 0, qn; i < m; i++ {
 			if len(items) > 0 && cr.Chance(1, 3) {
 				parts = append(parts, kit.Hex(items[cr.Intn(len(items))]))
 			} else {
